@@ -720,6 +720,30 @@ func TestC16Concurrent(t *testing.T) {
 			}
 			lastTx, lastLog = *o.Tx.ID, *o.Log.ID
 		}
+		// requests that arrive once all of these have been answered (served by whichever pooled connection comes up)
+		// are later commits in every sense: their ids exceed every id handed out so far
+		var maxTx, maxLog uint64
+		for _, r := range w.Env.Sim.Rows(l.Bucket, "transactions") {
+			if r["ledger"].S == l.Name && r["id"].N.Uint64() > maxTx {
+				maxTx = r["id"].N.Uint64()
+			}
+		}
+		for _, r := range w.Env.Sim.Rows(l.Bucket, "logs") {
+			if r["ledger"].S == l.Name && r["id"].N.Uint64() > maxLog {
+				maxLog = r["id"].N.Uint64()
+			}
+		}
+		for i := 0; i < 3; i++ {
+			o := liveCtrl{w: w, l: l}.createTx(TxRequest{Postings: ledger.Postings{ledger.NewPosting("world", fmt.Sprintf("after:%d", i), "USD/2", big.NewInt(int64(1+i)))}})
+			if o.Err != nil {
+				w.checkErr(o.Err)
+				w.V("C16", "a write sent after the concurrent ones were answered failed: %v\n%s", o.Err, describeOuts(ws, outs))
+			}
+			if *o.Tx.ID <= maxTx || *o.Log.ID <= maxLog {
+				w.V("C16", "a write sent after every concurrent one had been answered received transaction id %d / log id %d; the ledger had already stored ids up to %d / %d\n%s\nschedule:\n  %s", *o.Tx.ID, *o.Log.ID, maxTx, maxLog, describeOuts(ws, outs), strings.Join(s.Trace, "\n  "))
+			}
+			maxTx, maxLog = *o.Tx.ID, *o.Log.ID
+		}
 	})
 }
 
